@@ -26,6 +26,7 @@ pub fn params_for(rng: &mut Rng, case: u64, max_log_n: u32, exact: bool) -> GenP
         max_blowup: *rng.pick(&[8usize, 16, 32, 64, 128]),
         exact,
         max_assertions: 0,
+        long_cycles: false,
     }
 }
 
@@ -131,7 +132,7 @@ where
     B: BaseFut,
     H: ElementHasher<BaseField = B> + Sync + Send,
 {
-    let base = GenParams { log_n: 6, max_width: 3, max_degree: 2, periodic: false, aux: false, exemptions: 1, long_sequence: false, max_blowup: 8, exact, max_assertions: 0 };
+    let base = GenParams { log_n: 6, max_width: 3, max_degree: 2, periodic: false, aux: false, exemptions: 1, long_sequence: false, max_blowup: 8, exact, max_assertions: 0, long_cycles: false };
     let (label, gp, fix): (&str, GenParams, Box<dyn Fn(&mut Opts)>) = match which {
         // 255 distinct query positions need a large LDE domain
         0 => ("255-unique-queries", GenParams { log_n: 16, max_width: 2, ..base.clone() }, Box::new(|o: &mut Opts| {
